@@ -70,6 +70,17 @@ def queue_feed_signature():
 
 
 @fact
+def queue_close_calls_finaliser():
+    """multiprocessing.queues.Queue.close() calls the finaliser stored in self._close; _finalize_close appends the sentinel to the buffer and notifies the feeder"""
+    t, o = _tree("multiprocessing.queues")
+    c = _method(t, "Queue", "close")
+    fcl = _method(t, "Queue", "_finalize_close")
+    src = ast.unparse(c) if c else ""
+    ok = "self._close" in src and "close()" in src and fcl is not None and "_sentinel" in ast.unparse(fcl) and "notify" in ast.unparse(fcl)
+    return bool(ok), o
+
+
+@fact
 def executor_map_submits():
     """concurrent.futures.Executor.map submits one call per element of zip(*iterables) through self.submit"""
     t, o = _tree("concurrent.futures._base")
